@@ -14,7 +14,9 @@ Tie:   X — the real limitparallelrequests.New(...) runs under testing/synctest
        connection is handed out as; `every_request_path_is_limited` is decided over it.
        X (connection level) — the real udp and tcp client.Conn over the in-memory transports: get / post / observe /
        Observation.Cancel / ping in every order for small counts, requests counted on the wire by a scripted peer; same
-       judge, same trace inclusion.
+       judge, same trace inclusion.  Also on connections made by the real constructors: tcp.Client with options.WithLimit…,
+       and connections accepted by a real tcp.Server / dtls.Server (in-memory listener) configured with these options, where
+       the judge demands AT MOST the server's limits and the model runs with the limits the extracted server wiring yields.
 Hook:  net/client/limitParallelRequests/export_verif.go (read-only: VerifHash, VerifEntries, VerifEndpoint).
 """
 import glob
@@ -80,11 +82,17 @@ def gen_conn_lines(ctx):
         if thorough:
             L.append("connexplore %s 2 2 4 1" % tr)
             L.append("connexplore %s 0 1 3 2" % tr)
+    # connections made by the REAL constructors: tcp.Client with options.WithLimitClient…, and connections accepted by a real
+    # tcp.Server / dtls.Server configured with these options (the requests are the ones the server sends to its peer; the
+    # limits in the header are the server's configuration: the judge demands "at most" them)
+    for tr, cfgs in (("tcpcli", ((2, 1), (1, 1))), ("tcpsrv", ((2, 1), (4, 1), (1, 2))), ("dtlssrv", ((2, 1), (4, 1), (1, 2)))):
+        for (l, e) in cfgs:
+            L.append("connexplore %s %d %d %d 2" % (tr, l, e, 4 if thorough and (l, e) == (2, 1) else 3))
     if not thorough:
         L.append("connexplore tcp 1 1 4 1")
         L.append("connexplore udp 2 1 4 1")
-    for i, tr in enumerate(("udp", "tcp")):
-        L.append("connrandom %s %d %d 7 2" % (tr, ctx.seed + 77 + i, 3000 if thorough else 300))
+    for i, tr in enumerate(("udp", "tcp", "tcpcli", "tcpsrv", "dtlssrv")):
+        L.append("connrandom %s %d %d 7 2" % (tr, ctx.seed + 77 + i, (3000 if i < 2 else 1000) if thorough else (300 if i < 2 else 150)))
     return L
 
 
@@ -275,6 +283,10 @@ def explore(ctx, art):
                       "same window, or both past the per-path limit)")
         cfg = " ".join(h.split(";")[0].split()[1:])
         ctx.count(("conn " if h.startswith("conn ") else "cfg ") + cfg)
+        if h.startswith("conn ") and h.split()[1].endswith("srv"):
+            ctx.count("histories on connections accepted by a real server (%s)" % h.split()[1])
+        if h.startswith("conn tcpcli"):
+            ctx.count("histories on connections made by tcp.Client with options.WithLimit…")
         if h.startswith("conn ") and "unobserve" in h:
             ctx.count("connection-level histories with Observation.Cancel")
         ctx.count("events", nev)
